@@ -186,6 +186,6 @@ func init() { register("C19", runC19) }
 
 func TestC19(t *testing.T) {
 	p := mixedParams{Modes: []int{0}, Segs: []int64{120, 200, 333, 1024}, Buckets: []string{"b", "bb", "c"},
-		MinB: 1, MaxB: 2, MaxSteps: 14, MaxOps: 4, ReopenPct: 15, Structs: true, ReadsInTx: true, Fill: true, NoSPop: true}
+		MinB: 1, MaxB: 2, MaxSteps: 14, MaxOps: 4, ReopenPct: 15, Structs: true, ReadsInTx: true, Fill: true, NoSPop: true, LongBigSeg: true}
 	runProperty(t, "C19", genMixedCase(p), runC19)
 }
